@@ -233,6 +233,29 @@ theorem all_released_empty {s : State} (h : Reachable s) (hext : ∀ i, s.ext i 
   rw [this]
   exact ⟨rfl, rfl⟩
 
+/-- The reference counts implement exactly the ownership specification (Spec/Ownership.lean: "a node
+lives as long as some chain of owners leads to it from a reference the caller holds"): in every
+reachable state the live nodes are precisely those reachable, through container slots, from a node
+with a caller-held reference.  So a node is destroyed when, and only when, the last such chain is cut. -/
+theorem live_iff_owner_chain {s : State} (h : Reachable s) (i : Id) :
+    s.isLive i ↔ ∃ root, 0 < s.ext root ∧ Reach s.heap root i := by
+  have hs := reachable_inv h
+  constructor
+  · exact live_has_root s hs i
+  · intro ⟨root, hroot, hreach⟩
+    have hl : s.isLive root := hs.h.extLive root hroot
+    clear hroot
+    induction hreach with
+    | refl => exact hl
+    | @step a c b hc _ ih =>
+      apply ih
+      obtain ⟨n, hn, hcn⟩ := (mem_childrenOf s.heap a c).mp hc
+      apply hs.h.closed
+      have h1 := Heap.count_edges_of_get? s.heap a n hn c
+      have h2 : 0 < n.body.children.count c := List.count_pos_iff.mpr hcn
+      simp only [List.count_nil, Nat.add_zero]
+      exact Nat.lt_of_lt_of_le h2 h1
+
 /-- well-formed histories never build a cycle -/
 theorem reachable_acyclic {s : State} (h : Reachable s) : Acyclic s.heap ∧ ∀ i, ¬ ∃ j, j ∈ s.heap.childrenOf i ∧ Reach s.heap j i := by
   have hs := reachable_inv h
